@@ -42,17 +42,35 @@ fn build(hs: &HistSeed) -> Option<(Cfg, Vec<Call>, Runner)> {
             }
         }
     }
+    // one image in ~100 is larger than 1 MiB (one huge datum)
+    if hs.order_sel % 97 == 0 {
+        if let Some(v) = r.m.alive().first().copied() {
+            let call = Call::Put(v, (0..1_300_000usize).map(|i| (i as u8) ^ (i >> 8) as u8 | 1).collect());
+            if r.valid(&call) {
+                r.step(&call);
+                history.push(call);
+            }
+        }
+    }
     Some((cfg, history, r))
 }
 
 impl PrefixEngine {
     fn cuts(&self, size: usize) -> Vec<usize> {
-        if self.all_prefixes || size <= 4096 {
+        // every cut point — except for images above 256 KiB, where a load costs ~1 ms and
+        // the cut points are sampled in both tiers
+        if (self.all_prefixes && size <= 262_144) || size <= 4096 {
             return (0..size).collect();
         }
         let mut v: Vec<usize> = (0..600).chain(size - 600..size).collect();
         for i in 0..1024 {
             v.push(i * size / 1024);
+        }
+        // around the power-of-two positions (block boundaries of typical readers)
+        let mut p = 4096usize;
+        while p < size {
+            v.extend([p - 1, p, p + 1].into_iter().filter(|k| *k < size));
+            p *= 2;
         }
         v.sort_unstable();
         v.dedup();
@@ -165,7 +183,7 @@ impl Engine for PrefixEngine {
                 if s.len() > 1000 {
                     s = s.chars().take(1000).collect::<String>() + " …";
                 }
-                json!({"graph_built_by": s, "image_bytes": size, "cut_points": self.cuts(size).len()})
+                json!({"graph_built_by": s.chars().take(1200).collect::<String>(), "image_bytes": size, "cut_points": self.cuts(size).len()})
             }
             None => json!("closed"),
         }
